@@ -568,6 +568,10 @@ func ppPackCase(w *bufio.Writer, r *u.Rng, dist map[string]int, caseNo int) {
 	if pnUsed > lg+1 && r.Bool() {
 		lg += int64(r.U64() % uint64(pnUsed-lg))
 	}
+	if r.Chance(1, 4) { // the packet is overtaken: the receiver has already opened a later one (within the tolerance of the length)
+		tol := int64(1)<<(8*uint(res.PNLen)-1) - 2
+		lg = pnUsed + int64(r.Pick(1, 2, 100, tol))
+	}
 	if lg > 0 {
 		// move the opener there with a 4-byte packet number (only possible below 2^31 from 0)
 		if lg < 1<<31 {
@@ -621,7 +625,7 @@ func ppPackCase(w *bufio.Writer, r *u.Rng, dist map[string]int, caseNo int) {
 	// open it with the real unpacker; replay the unpacker in the model (UnprotCase)
 	var l2 quic.VerifProtLog
 	up, hdrLen, pktLen, cls := e.unpack(res.Packet, &l2)
-	inGuarantee := la <= largest && largest <= pnUsed && pnUsed-la <= 1<<31
+	inGuarantee := la <= largest && largest <= pnUsed+(int64(1)<<(8*uint(res.PNLen)-1)-2) && pnUsed-la <= 1<<31
 	if inGuarantee && (cls != quic.VerifProtOK || up.PN != pnUsed || up.PNLen != res.PNLen || !bytes.Equal(up.Payload, pt)) {
 		fmt.Fprintf(w, "MONFAIL\tprotect/pack-roundtrip\tpacket built by the packer did not open to the same packet number and payload (class %d, pn %d, pnLen %d, payload %x; receiver largest %d)\t%s\n",
 			cls, up.PN, up.PNLen, up.Payload, largest, ctx)
